@@ -324,8 +324,10 @@ extern "C" {
    void __sanitizer_symbolize_pc(void* pc, const char* fmt, char* out_buf, size_t out_buf_size);
 }
 static char g_asan_report[512];
+static bool g_san_since_case_start = false;   // a sanitizer report was raised while the current case ran
 extern "C" void __asan_on_error()
 {
+   g_san_since_case_start = true;
    char fn[256];
    fn[0] = 0;
    __sanitizer_symbolize_pc(__asan_get_report_pc(), "%f", fn, sizeof fn);
@@ -348,6 +350,7 @@ inline std::string take_asan_report()
    return "asan:" + r.substr(0, q + 1) + short_fn(r.substr(q + 1));
 }
 #else
+static bool g_san_since_case_start = false;
 inline std::string take_asan_report() { return std::string(); }
 #endif
 
@@ -378,6 +381,8 @@ struct RunOpts
    int workers = 16;
    double deadline = 0;          // absolute now_s() value; 0 = none
    double watchdog_s = 60;       // CPU seconds a single case may take (wall limit: 15x that)
+   bool restartAfterSanitizerReport = false;   // a case during which a sanitizer report was raised may have damaged the heap of the worker, and the runtime reports a faulty
+                                               // instruction only once per process: finish the case, then continue in a fresh worker (forked from the untouched parent)
    std::vector<int> perturb = {85};   // one pass per entry (mallopt M_PERTURB value; 0 = off)
    std::string tmpdir;
    uint64_t shuffle_seed = 0;    // rotates visiting order only
@@ -470,6 +475,7 @@ inline RunResult run_parallel(uint64_t N, const CaseFn& fn, const DescFn& descri
                   shm[w].idx = idx;
                   shm[w].sub = 0;
                   shm[w].seq++; shm[w].lastSan[0] = 0;
+                  g_san_since_case_start = false;
                   if((k & 7) == 7) ctx.flushDelta();
                   uint64_t d = 0;
                   try
@@ -501,6 +507,13 @@ inline RunResult run_parallel(uint64_t N, const CaseFn& fn, const DescFn& descri
                      else if(dig[idx] != d32 && d32 != 0 && dig[idx] != 0)
                         ctx.violation("heap-fill-dependent-result" + (sigsuffix ? sigsuffix(idx, 0) : std::string()), describe(idx, 0),
                                       "outcome digest differs between malloc perturb fills");
+                  }
+                  if(opt.restartAfterSanitizerReport && g_san_since_case_start)
+                  {
+                     ctx.count("runner.restarts_after_sanitizer_report");
+                     ctx.flushDelta();
+                     fflush(f);
+                     _exit(99);
                   }
                }
             }
@@ -564,6 +577,21 @@ inline RunResult run_parallel(uint64_t N, const CaseFn& fn, const DescFn& descri
             unlink(path.c_str());
             active[w] = false;
             running--;
+            continue;
+         }
+         if(!hang && WIFEXITED(st) && WEXITSTATUS(st) == 99)
+         {
+            // requested restart after a case with a sanitizer report: keep everything the worker wrote, continue after that case in a fresh worker
+            std::ifstream in(path);
+            std::string line;
+            while(std::getline(in, line)) if(line.size() > 2 && line[1] == '\t') out.mergeLine(line);
+            unlink(path.c_str());
+            gen[w]++;
+            startPass[w] = shm[w].pass;
+            resumeA[w] = shm[w].idx + 1;
+            resumeB[w] = shm[w].chunkEnd;
+            shm[w].finished = 0;
+            spawn(w);
             continue;
          }
          // crash, hang, or abnormal exit in case shm[w].idx
